@@ -1233,6 +1233,53 @@ def pc_holds(pc, val):
     return True
 
 
+_POS = {"IsNot": "Is", "NotEq": "Eq", "NotIn": "In"}
+
+
+def free_atoms(pcs, val):
+    """Boolean leaves of the path conditions that ``val`` cannot evaluate (opaque atoms, E8)."""
+    atoms = []
+
+    def walk(t):
+        if not isinstance(t, T):
+            return
+        if t.op == "boolop":
+            for x in t.a[1]:
+                walk(x)
+        elif t.op == "unop" and t.a[0] == "Not":
+            walk(t.a[1])
+        elif t.op == "paths":
+            for alt in t.a[0]:
+                for tt, _ in alt:
+                    walk(tt)
+        elif t.op == "noreturn":
+            return
+        else:
+            try:
+                ceval(t, val)
+            except Undef:
+                a = T("cmp", _POS[t.a[0]], t.a[1], t.a[2]) if t.op == "cmp" and t.a[0] in _POS else t
+                if a not in atoms:
+                    atoms.append(a)
+
+    for pc in pcs:
+        for t, _ in pc:
+            walk(t)
+    return atoms
+
+
+def valuations(pcs, val, limit=8):
+    """``val`` extended by every assignment of the opaque Boolean atoms of ``pcs`` (at most 2**limit)."""
+    atoms = free_atoms(pcs, val)
+    if len(atoms) > limit:
+        raise Undef(atoms[limit])
+    for mask in range(1 << len(atoms)):
+        v = dict(val)
+        for i, a in enumerate(atoms):
+            v[a] = bool(mask >> i & 1)
+        yield v, [(a, v[a]) for a in atoms]
+
+
 def int_consts(terms):
     out = set()
     for t in terms:
